@@ -674,6 +674,9 @@ pub fn violation_cases() -> Vec<(&'static str, &'static str, Vec<Vec<Step>>, Vec
     // the writer T0 requires T1; in a later session T1 starts reading what T0 generates (it cannot depend on T0: that would be a cycle)
     ("C05", "C05.bounded.hidden_read_by_a_task_the_writer_requires_aborts", vec![vec![Require(1, 1), Write(2, 1)], vec![Read(0, 1), IfOdd(vec![Read(2, 1)], vec![])]],
        vec![Act::Set(0, 1), Act::TopDown(0), Act::Set(0, 0), Act::TopDown(0)], "Hidden dependency"),
+    // T0 writes resource 2 and is then interrupted (the task it requires panics): it stays the recorded writer, its content is in the
+    // resource; a different task writing the resource in a later build is an overlapping write
+    ("C06", "C06.bounded.overlap_with_a_writer_interrupted_by_an_abort_is_diagnosed", vec![vec![Write(2, 1), Require(1, 1)], vec![Read(0, 0)], vec![Write(2, 2)]], vec![Act::Set(0, 0), Act::PanicIn(1, 0), Act::TopDown(2)], "Overlapping write"),
     ("C06", "C06.bounded.second_writer_after_a_read_then_write_task_never_succeeds", vec![vec![Read(2, 0), Write(2, 1), Require(1, 1)], vec![Write(2, 2)]], vec![Act::TopDown(0)], "Hidden dependency"),
     // the second writer declares its write with a checker that cannot stamp: the overlap is diagnosed all the same
     ("C06", "C06.bounded.declared_overlap_is_diagnosed_even_if_stamping_fails", vec![vec![Require(1, 1), Require(2, 1)], vec![Write(2, 1)], vec![WrittenToBadStamp(2, 2)]], vec![Act::TopDown(0)], "Overlapping write"),
@@ -712,6 +715,12 @@ pub fn run_violation(prog: &Vec<Vec<Step>>, hist: &[Act], expect: &str, prop: &'
   let last_build = hist.iter().rposition(|a| matches!(a, Act::TopDown(_))).unwrap_or(0);
   for (i, a) in hist.iter().enumerate() {
     if let Act::Set(r, v) = a { pie.resource_state_mut::<Res>().get_global_map_mut().insert(Res(*r), *v); }
+    if let Act::PanicIn(task, root) = a {   // an earlier build that is aborted by a panic in `task`
+      PANIC_IN.with(|p| p.set(Some(*task)));
+      let r = catch_unwind(AssertUnwindSafe(|| pie.new_session().require(&T(*root))));
+      PANIC_IN.with(|p| p.set(None)); ACTIVE.with(|a| a.borrow_mut().clear());
+      match r { Ok(_) => panic!("harness: the build in which task {} panics returned", task), Err(e) => { let m = panic_msg(e); if !m.starts_with("injected") { fail!("C19", "C19.bounded.no_internal_invariant_error", "a build in which task {} panics failed with: {}", task, m); } } }
+    }
     if let Act::TopDown(root) = a {
       let before = map_of(&mut pie);
       let r = catch_unwind(AssertUnwindSafe(|| pie.new_session().require(&T(*root))));
@@ -1079,6 +1088,10 @@ pub fn fixed_cases() -> Vec<(&'static str, Vec<Vec<Step>>, Vec<Act>)> {
           Act::TopDown(0), Act::TopDown(1), Act::TopDown(3), Act::TopDown(4), Act::TopDown(5),
           Act::Set(13, 2), Act::Set(11, 2), Act::TopDown(3), Act::TopDown(1),
           Act::Set(12, 3), Act::Set(13, 4), Act::Set(14, 3), Act::Set(15, 2), Act::BottomUp, Act::TopDown(1), Act::TopDown(3)]),
+    // two different dependencies fail in one session with the same error message: both are reported
+    ("two failing checks in one session are two reported errors",
+     vec![vec![Read(0, 3)], vec![Read(1, 3)], vec![Require(0, 0), Require(1, 0)]],
+     vec![Act::Set(0, 0), Act::Set(1, 0), Act::TopDown(2), Act::TopDownFlaky(2), Act::Set(0, 1), Act::Set(1, 1), Act::BottomUpFlaky, Act::TopDown(2)]),
     // the failing check is the one of a WRITE dependency (all earlier dependencies consistent), top-down and bottom-up
     ("a check that fails for a write dependency",
      vec![vec![Read(0, 0), WriteFlaky(2, 1)], vec![Require(0, 1), Read(2, 0)]],
